@@ -770,7 +770,7 @@ func (gen *Generator) GenerateCallBySymbol(sym *SexpSymbol, args []Sexp, orig Se
 		if known.varargs {
 			selfArityOK = len(args) >= known.nargs
 		} else {
-			selfArityOK = len(args) == known.nargs
+			selfArityOK = len(args) == known.nargs || allArgsByName(known, args)
 		}
 	}
 	if oldtail && sym.name == gen.funcname && selfArityOK && !*gen.selfRebound {
@@ -826,6 +826,23 @@ func (gen *Generator) LookupKnownFunction(sym *SexpSymbol) *SexpFunction {
 	}
 	function, _ := x.(*SexpFunction)
 	return function
+}
+
+// allArgsByName reports whether args spells every parameter of the
+// typed function as a name: value pair, (f a: 1 b: 2). The call
+// preparation puts such arguments in positional order, so a self call
+// written this way can be a tail call like the positional one.
+func allArgsByName(function *SexpFunction, args []Sexp) bool {
+	if function.inputTypes == nil || function.HasLazyFormals() ||
+		function.nargs == 0 || len(args) != 2*function.nargs {
+		return false
+	}
+	for i := 0; i < len(args); i += 2 {
+		if _, isNamed := namedArgSymbol(args[i]); !isNamed {
+			return false
+		}
+	}
+	return true
 }
 
 func (gen *Generator) GenerateCallArgsForFunction(function *SexpFunction, args []Sexp) error {
